@@ -75,6 +75,30 @@ pub fn configs(tier: Tier) -> Vec<OutCfg> {
                 });
             }
         }
+        // write back-pressure episodes: a 24-byte QoS 0 publish overflows the 16-byte write buffer while the peer does
+        // not read, so a chunk of a streamed publish handed over then parks until the buffer drains; other sends
+        // attempted meanwhile must still be refused (payload owed) - seeded change C08_r6 accounted the chunk
+        // before it was written
+        for senders in [vec![SK::Q0Fill, st(0, 1), SK::Q0], vec![SK::Q0Fill, st(1, 1), SK::Q1], vec![st(0, 1), SK::Q0Fill, SK::Q0]] {
+            let mut ep = ep_for(EpCfg::new(ver, role), 8, true);
+            ep.handler_auto = true;
+            v.push(OutCfg {
+                ep,
+                cap: 8,
+                senders,
+                cancels: 0,
+                batch: false,
+                bp: 1,
+                peer: PeerMode::Correct,
+                judge: J_WIRE,
+                prologue: 0,
+                peer_max_packet: 0,
+                inbound: 0,
+                may_close: false,
+                inbound_faults: false,
+                cancel_inflight: false,
+            });
+        }
     }
     v
 }
@@ -85,7 +109,7 @@ pub fn run(tier: Tier) -> i32 {
     for (i, c) in configs(tier).iter().enumerate() {
         ck.explore::<Out>("outbound", i, c, &ecfg);
     }
-    ck.rule = "per role: 2-3 application operations over {QoS 0/1/2 sends, QoS 1 through the non-blocking API, streamed sends (stream_at_most_once / stream_at_least_once of 6 bytes with chunk plans: exact in one, exact in two, second chunk one byte too long, half then dropped), subscribe/unsubscribe, sends that must fail locally: 65536-byte topic, 65536-byte property, a failure after a field larger than a buffer page, over the peer's maximum packet size, packet id in use (publish, subscribe, unsubscribe with caller-chosen ids), over-long filter}; every chunk is released by an explorer event so other sends, peer acknowledgements, one inbound PINGREQ / QoS 1 PUBLISH (dispatcher response), an application close(), or a peer fault that ends the connection on an error path (undecodable bytes, protocol-violating packet, DISCONNECT) interleave everywhere; oracle: the wire parses with the independent decoder as whole packets (a truncated tail only as the streamed PUBLISH of an aborted transport), Ok <-> exactly one packet, local Err <-> no bytes, streamed payload = accepted chunks with the declared size".into();
+    ck.rule = "per role: 2-3 application operations over {QoS 0/1/2 sends, QoS 1 through the non-blocking API, streamed sends (stream_at_most_once / stream_at_least_once of 6 bytes with chunk plans: exact in one, exact in two, second chunk one byte too long, half then dropped), subscribe/unsubscribe, sends that must fail locally: 65536-byte topic, 65536-byte property, a failure after a field larger than a buffer page, over the peer's maximum packet size, packet id in use (publish, subscribe, unsubscribe with caller-chosen ids), over-long filter}; every chunk is released by an explorer event so other sends, peer acknowledgements, one inbound PINGREQ / QoS 1 PUBLISH (dispatcher response), an application close(), or a peer fault that ends the connection on an error path (undecodable bytes, protocol-violating packet, DISCONNECT) interleave everywhere; plus sender sets with a write back-pressure episode (24-byte QoS 0 publish over a 16-byte write buffer, peer not reading) so that a stream chunk parks on it; oracle: the wire parses with the independent decoder as whole packets (a truncated tail only as the streamed PUBLISH of an aborted transport), Ok <-> exactly one packet, local Err <-> no bytes, streamed payload = accepted chunks with the declared size".into();
     ck.assumptions = vec![
         "FIFO task order of ntex-rt; nondeterminism = timing of environment events (DESIGN 2.4)".into(),
         "chunk bytes 0xD0.. and topic tags identify which operation a wire packet belongs to".into(),
